@@ -5,6 +5,7 @@ package query
 //verif:harness VerifC12WideJoin mode=bv tier=quick split=2
 //verif:setup VerifC12RaggedSetup
 //verif:harness VerifC12RaggedSources mode=bv tier=quick split=2
+//verif:harness VerifC12ManyWorkers mode=bv tier=quick split=4
 
 import (
 	"strconv"
@@ -146,5 +147,61 @@ func VerifC12RaggedSources() {
 	}
 	_ = proc.ReleaseResourcesWithErrors()
 	verifObserve("columns", int64(len(v.Header)))
+	verifReach("end")
+}
+
+// The bucketing operators with three and four workers (per-core threshold lowered to one record) on 5
+// rows whose keys come from {0, 1}: a key may be seen by the first and the last worker and not by the ones in
+// between.  Rows, their order and every aggregate are those of --cpu 1.
+func VerifC12ManyWorkers() {
+	src := []string{
+		"select k, count(*), min(id), max(id), listagg(id, ',') from t group by k",
+		"select distinct k from t",
+		"select id, count(*) over (partition by k), listagg(id, ',') over (partition by k) from t",
+		"select k from t union select k from t",
+		"select k, count(distinct id) from t group by k order by k desc",
+		"select id from t where k = 1 order by id desc",
+	}
+	qi := verifChoice("query", len(src))
+	q := verifParseSelect(src[qi])
+	const n = 5
+	var keys [n]int64
+	for i := range keys {
+		keys[i] = int64(verifChoice("k", 2))
+	}
+	workers := 3 + verifChoice("workers", 2)
+	run := func(cpu int) ([][]value.Primary, error) {
+		tx := verifNewTx()
+		tx.Flags.CPU = cpu
+		scope := NewReferenceScope(tx)
+		rows := make([][]value.Primary, n)
+		for i := range rows {
+			rows[i] = []value.Primary{value.NewInteger(int64(i)), value.NewInteger(keys[i])}
+		}
+		verifTempTable(scope, "t", []string{"id", "k"}, rows)
+		GetGoroutineManager().MinimumRequiredPerCore = 1
+		view, err := Select(verifCtx(), scope, q)
+		if err != nil {
+			return nil, err
+		}
+		out := make([][]value.Primary, view.RecordLen())
+		for r := range out {
+			for _, cell := range view.RecordSet[r] {
+				out[r] = append(out[r], cell[0])
+			}
+		}
+		return out, nil
+	}
+	want, err1 := run(1)
+	got, err2 := run(workers)
+	verifAssert("both runs succeed", err1 == nil && err2 == nil)
+	verifAssert("same number of rows for one and for several workers", len(want) == len(got))
+	for r := 0; r < len(want) && r < len(got); r++ {
+		verifAssert("same row width", len(want[r]) == len(got[r]))
+		for c := 0; c < len(want[r]) && c < len(got[r]); c++ {
+			verifAssert("same value at the same position for one and for several workers", verifSamePrimary(want[r][c], got[r][c]))
+		}
+	}
+	verifObserve("rows", int64(len(want)))
 	verifReach("end")
 }
